@@ -170,6 +170,24 @@ def _work(args):
                         if got != exp:
                             fails.append({"detail": f"registry variant {variant}, registration order {[ents[i]['name'] for i in order]}, modules imported {sorted(imported)}, after lookup {first}: get({arg!r}, {tt}) gives {got}, documented selection is {exp}",
                                           "replay": {"fn": "vf.props.C11:replay", "args": [variant, list(order), list(preimport), list(first) if first else None, arg if not isinstance(arg, tuple) else list(arg), list(tt)]}})
+                # late import, and the FIRST lookup afterwards fails for an unrelated reason (its registry snapshot is discarded): later lookups must still see the lazily registered backends
+                if not preimport and mods:
+                    for bad_first in (("nosuch", ("nd",)), (None, ("un",)), (None, ("un", "f1"))):
+                        reg, objs = build(ents, order, B)
+                        for m in mods:
+                            sys.modules[m] = types.ModuleType(m)
+                        outcome(reg, objs, bad_first[0], bad_first[1], B)
+                        for arg, tt in lks:
+                            if isinstance(arg, tuple):
+                                continue
+                            n += 1
+                            got = outcome(reg, objs, arg, tt, B)
+                            exp = spec.select(arg, [], [TENSORS[t] for t in tt], set(mods))
+                            if got != exp:
+                                fails.append({"detail": f"variant {variant}, order {[ents[i]['name'] for i in order]}, modules imported after registration, first lookup {bad_first} (fails), then get({arg!r}, {tt}) gives {got}, documented {exp}"})
+                                break
+                        for m in mods:
+                            sys.modules.pop(m, None)
                 # late import: the module appears after registration
                 if not preimport and mods:
                     reg, objs = build(ents, order, B)
